@@ -1079,6 +1079,12 @@ func runC10(c *RunCtx) {
 	var w []byte
 	if t.Intn(5) == 4 {
 		name = pickType(t, 3)
+		if t.Chance(1, 120) {
+			// an honest message whose texts are megabytes long and really present: memory must stay
+			// a small multiple of the input for those too
+			g.cfg.StrCap = 1<<20 + t.Intn(3<<20)
+			c.Probe("control.megabyte-texts")
+		}
 		s, ok := genSent(c, g, name)
 		if !ok {
 			return
@@ -1152,10 +1158,16 @@ func runC15(c *RunCtx) {
 	if t.Intn(4) == 3 {
 		spans, total := Layout(s.post)
 		if total == len(s.w) {
-			if t.Intn(2) == 0 {
+			switch t.Intn(3) {
+			case 0:
 				w, desc, _ = foreignPeer(t, s.w, spans)
-			} else {
+			case 1:
 				w, desc = flipBits(t, s.w, spans)
+			default:
+				// a discriminator this tree may or may not know (near misses of registered keys)
+				if w2, d, ok := unknownDiscriminator(t, s.w, spans); ok {
+					w, desc = w2, d
+				}
 			}
 		}
 	}
@@ -1235,6 +1247,11 @@ func runC15(c *RunCtx) {
 		g.cfg = saved
 		how = "generator-filled"
 		if t.Intn(2) == 0 {
+			if n := spareCapacity(reflect.ValueOf(dirty).Elem(), t.Bulk()); n > 0 {
+				how = "generator-filled, its lists built with append (spare capacity behind their elements)"
+				c.Probe("history.spare-capacity")
+			}
+		} else if t.Intn(2) == 0 {
 			if n := aliasLists(reflect.ValueOf(dirty).Elem()); n > 0 {
 				how = "generator-filled, with lists of equal type sharing one backing array (as an application that built it from windows of one slice would leave it)"
 				c.Probe("history.aliased-lists")
@@ -1263,8 +1280,17 @@ func runC15(c *RunCtx) {
 			c.Probe("history.was-outgoing")
 		}
 	}
-	switch t.Intn(4) {
+	switch t.Intn(5) {
 	case 0, 1:
+	case 4:
+		// then a further message of the type - a close relative of these bytes - decoded successfully
+		var vb bytes.Buffer
+		if rr := tryEncode(variantOf(s.pre, t.Bulk()), &vb); rr.Err == nil && rr.Panic == nil {
+			if rr := tryDecode(dirty, bytes.NewBuffer(cloneBytes(vb.Bytes()))); rr.Err == nil && rr.Panic == nil {
+				how += ", then decoded a close relative of this message"
+				c.Probe("history.then-relative")
+			}
+		}
 	case 2:
 		// then a failed decode of a truncated different message
 		other, ok := genSent(c, g, name)
@@ -1461,6 +1487,14 @@ func runC16(c *RunCtx) {
 		buf := bytes.NewBuffer(arr[:lead+len(in)])
 		buf.Next(lead)
 		recv := newValue(name)
+		if t.Intn(3) == 0 {
+			// the receiver object is reused: it decoded this same message before, from another buffer
+			if rr := tryDecode(recv, bytes.NewBuffer(cloneBytes(s.w))); rr.Err != nil || rr.Panic != nil {
+				recv = newValue(name)
+			} else {
+				c.Fire("recv.dirty")
+			}
+		}
 		r := tryDecode(recv, buf)
 		if r.Panic != nil {
 			c.Probe("skip.decode-panicked(reported-by-C09)")
@@ -1618,6 +1652,41 @@ func c16Retained(c *RunCtx, g *Gen, name string, s *sent) {
 		}
 	}
 	c.T.Observe(uint64(len(parts)))
+}
+
+// spareCapacity re-allocates the numeric and text lists reachable from a value with 1-8
+// elements of spare capacity behind their contents (what append leaves).  Contents unchanged.
+func spareCapacity(rv reflect.Value, b *bulk) int {
+	n := 0
+	var walk func(v reflect.Value)
+	walk = func(v reflect.Value) {
+		switch v.Kind() {
+		case reflect.Ptr, reflect.Interface:
+			if !v.IsNil() {
+				walk(v.Elem())
+			}
+		case reflect.Struct:
+			for i := 0; i < v.NumField(); i++ {
+				if v.Type().Field(i).IsExported() {
+					walk(v.Field(i))
+				}
+			}
+		case reflect.Slice:
+			ek := v.Type().Elem().Kind()
+			if (isNumKind(ek) || ek == reflect.String) && v.CanSet() {
+				out := reflect.MakeSlice(v.Type(), v.Len(), v.Len()+1+b.intn(8))
+				reflect.Copy(out, v)
+				v.Set(out)
+				n++
+			} else {
+				for i := 0; i < v.Len() && i < 8; i++ {
+					walk(v.Index(i))
+				}
+			}
+		}
+	}
+	walk(rv)
+	return n
 }
 
 // aliasLists rearranges the numeric and text lists reachable from a value so that lists of the
